@@ -1,4 +1,5 @@
-(* Extraction of the executable version/handle model (ExtrOcamlBasic only). *)
+(* Extraction of the executable models (ExtrOcamlBasic only). *)
 From Coq Require Import ZArith List Extraction ExtrOcamlBasic.
-From C15 Require Version.
-Separate Extraction Version.run_out Version.init Version.getc.
+From C15 Require Version Arr MultiMap Table.
+Separate Extraction Version.run_out Version.init Version.getc
+  Arr.arun_out Arr.ainit MultiMap.mrun_out MultiMap.minit Table.trun_out Table.tinit.
